@@ -139,8 +139,7 @@ def rw_whitespace(rng, toks, mode):
             if t.directive:
                 ng = g                                   # ends the previous line as the original did
             elif after_pp:
-                # (a comment spanning lines directly after a directive line is a family of its own: known finding)
-                ng = "\n" + (rand_ws(rng, True, True).replace("/* a\n b */", "/* a b */") if rng.random() < 0.5 else "")
+                ng = "\n" + (rand_ws(rng, True, True) if rng.random() < 0.5 else "")
             elif t.kind == "eof":
                 ng = g if g.endswith("\n") else g + "\n"
             elif g == "":
